@@ -14,7 +14,7 @@ func c09Mk(log *[]string) rj.Inputs {
 	return rj.Inputs{Vars: map[string]interface{}{"cT": true, "cF": false, "rS": []string{"e1", "e2"}, "rOne": []string{"one"}, "nameVar": "", "dir": "/sub/", "nilv": nil}, Data: "D"}
 }
 
-const c09NCallee = 31
+const c09NCallee = 32
 
 // c09Callee builds the callee file set for shape k; it returns the callee's files and whether it exists.
 func c09Callee(k int, name string) (files []*rj.File, exists bool) {
@@ -95,6 +95,8 @@ func c09Callee(k int, name string) (files []*rj.File, exists bool) {
 	case 27: // ... through includeIfExists with a context
 		f.Body = []rj.Stmt{rj.T("a"), rj.E(&rj.IncIf{Name: rj.S("/sub/retleaf.jet"), Ctx: rj.S("IC")}), rj.T("b")}
 		files = append(files, retInc)
+	case 31: // exists but does not parse: an error for every call kind, includeIfExists included
+		f.Broken = true
 	case 29: // returns its context: what '.' is inside an exec is only visible this way (the output is discarded)
 		f.Body = []rj.Stmt{rj.T("x"), &rj.Return{E: &rj.Dot{}}}
 	case 30: // returns a caller variable read inside a range of its own
